@@ -212,6 +212,71 @@ class FuncCtx:
             return self.assign1[ref_id]
         return None
 
+    def struct_member_def(self, base, field):
+        """`S.f` for a struct-typed local S whose member f is stored exactly once (an unconditional statement of the block
+        that declares S), that is never assigned as a whole after its declaration, and whose address is only ever handed
+        to parameters of type pointer-to-const: the stored expression, else None."""
+        if base["kind"] != "DeclRefExpr" or base.get("ref", {}).get("kind") != "VarDecl":
+            return None
+        sid = base["ref"]["id"]
+        cache = getattr(self, "_smd", None)
+        if cache is None:
+            cache = self._smd = {}
+        if (sid, field) in cache:
+            return cache[(sid, field)]
+        res = None
+        decl_blk = None
+        for blk in walk(self.func.body):
+            if blk["kind"] == "CompoundStmt":
+                for st_ in kids(blk):
+                    if st_["kind"] == "DeclStmt" and any(v.get("id") == sid for v in kids(st_)):
+                        decl_blk = blk
+        ok = decl_blk is not None
+        stores_f = []
+        if ok:
+            for x in walk(self.func.body):
+                if x["kind"] in ("BinaryOperator", "CompoundAssignOperator") and x.get("opcode", "").endswith("=") and \
+                        x.get("opcode") not in ("==", "!=", "<=", ">="):
+                    l = strip(kids(x)[0], casts=True)
+                    if l["kind"] == "DeclRefExpr" and l["ref"].get("id") == sid:
+                        ok = False                       # whole-struct assignment after the declaration
+                    if l["kind"] == "MemberExpr" and not l.get("isArrow") and l.get("name") == field:
+                        b_ = strip(kids(l)[0], casts=True)
+                        if b_["kind"] == "DeclRefExpr" and b_["ref"].get("id") == sid:
+                            stores_f.append(x)
+                if x["kind"] == "UnaryOperator" and x.get("opcode") in ("++", "--"):
+                    l = strip(kids(x)[0], casts=True)
+                    if l["kind"] == "MemberExpr" and l.get("name") == field and \
+                            strip(kids(l)[0], casts=True).get("ref", {}).get("id") == sid:
+                        ok = False
+                if x["kind"] == "CallExpr":
+                    for a_ in kids(x)[1:]:
+                        a0 = a_
+                        const_ptr = False
+                        while a0["kind"] in ("ImplicitCastExpr", "CStyleCastExpr", "ParenExpr") and kids(a0):
+                            if "const " in (a0.get("type") or "") and (a0.get("type") or "").rstrip().endswith("*"):
+                                const_ptr = True
+                            a0 = kids(a0)[0]
+                        if a0["kind"] == "UnaryOperator" and a0.get("opcode") == "&":
+                            t_ = strip(kids(a0)[0], casts=True)
+                            if t_["kind"] == "DeclRefExpr" and t_["ref"].get("id") == sid and not const_ptr:
+                                ok = False
+            # an address taken outside a call argument
+            for x in walk(self.func.body):
+                if x["kind"] == "UnaryOperator" and x.get("opcode") == "&":
+                    t_ = strip(kids(x)[0], casts=True)
+                    if t_["kind"] == "DeclRefExpr" and t_["ref"].get("id") == sid:
+                        in_call = any(y["kind"] == "CallExpr" and any(z is x for a_ in kids(y)[1:] for z in walk(a_))
+                                      for y in walk(self.func.body))
+                        if not in_call:
+                            ok = False
+        if ok and len(stores_f) == 1 and stores_f[0].get("opcode") == "=" and any(st_ is stores_f[0] for st_ in kids(decl_blk)):
+            rhs = kids(stores_f[0])[1]
+            if not any(y["kind"] == "DeclRefExpr" and y.get("ref", {}).get("id") == sid for y in walk(rhs)):
+                res = rhs
+        cache[(sid, field)] = res
+        return res
+
     def resolve(self, n):
         """Follow single-assignment locals to the defining expression node."""
         seen = 0
@@ -251,6 +316,10 @@ class FuncCtx:
                 base = self.canon(ch[0], depth, subst)
                 return base + ("->" if n.get("isArrow") else ".") + "<anon>"
             b0 = self.resolve(ch[0])
+            if not n.get("isArrow") and depth < 12:
+                sd = self.struct_member_def(strip(ch[0], casts=True), n["name"])
+                if sd is not None:
+                    return self.canon(sd, depth + 1, subst)
             if n.get("isArrow") and b0["kind"] == "BinaryOperator" and b0.get("opcode") == "+" and \
                     "*" in (strip(kids(b0)[0], casts=True).get("type") or "") and "*" not in (strip(kids(b0)[1], casts=True).get("type") or "*"):
                 # (p + i)->f  ==  p[i].f
